@@ -15,43 +15,61 @@ package fiber
 // refJoin(refJoin(p1, p2), path) directly on the application. refJoin is the documented meaning of a prefix
 // (prefix without its trailing slashes, followed by the path with a leading slash; an empty path is the prefix).
 //
-// Bound (FVC_TIER=quick, about 25 s):
+// Bound, FVC_TIER=quick (about 35 s):
 //   routes R = {Get("/"), Get("/x"), Get("/:id"), Use("/x", mw), Use(mw)}, prefixes P = {"/", "/a", "/a/", "/:p"}
-//   depth 1: root = [<=1 route of R] ++ mount(p in P, sub) ++ [<=1 route of R], sub = any list of <= 2 routes of R,
-//            mounted by app.Use(p, sub), app.Group("/").Use(p, sub), app.Group(p).Use(sub) or app.Group("/a").Use(p, sub)
-//   depth 2: root = [Use(mw)?] ++ mount(p1, sub) ++ [Get("/x")?], sub = <= 1 route of R and mount(p2, leaf) before or
-//            after it, leaf = any list of <= 2 routes of R; mounted bottom-up and top-down (sub mounted into the
-//            root BEFORE the leaf is mounted into sub and before any route is registered)
+//   A depth 1: root = [<=1 route of R] ++ mount(p in P, sub) ++ [<=1 route of R], sub = any list of <= 2 routes of R,
+//              mounted by app.Use(p, sub); with <= 1 sibling also by app.Group("/").Use(p, sub), app.Group(p).Use(sub)
+//              and app.Group("/a").Use(p, sub)
+//   B two mounts: root = mount(p, s1) ++ mount(q, s2), s1 and s2 of <= 1 route, p, q in P
+//   C depth 2: root = mount(p1, sub) alone or Use(mw) ++ mount(p1, sub) ++ Get("/x"); sub = <= 1 route of R with
+//              mount(p2, leaf) before or after it; leaf = any list of <= 2 routes of R
+//   D depth 2 beside a sibling mount: root = mount(p1, sub{mount(p2, leaf{<=1 route}) ++ [<=1 route]}) ++ mount(q, s{Get("/x") | Use(mw)})
+//   every tree whose mounts precede the routes of their application is built twice: bottom-up (leaf mounted into
+//   sub, then sub into root) and top-down (sub mounted into root before leaf is mounted into sub and before any
+//   route is registered anywhere)
 //   requests: methods {GET, POST} x all paths of <= 3 segments over {"a", "x", "1"} with and without trailing slash
-//   part 2:   prefixes {"", "/", "/a", "/a/", "a", "/:p"} x {"", same} x R, through Group and through Route
-// Bound (FVC_TIER=thorough, about 6 min): sub/leaf lists of <= 3 routes at depth 1, sub <= 2 routes at depth 2,
-//   root siblings of depth 2 from all of R, additionally every tree with Config.StrictRouting and CaseSensitive.
+//             (trees that fall under a known finding, where every disagreement is attributed to it: <= 2 segments)
+//   part 2:   prefixes {"", "/", "/a", "/a/", "a", "/:p"} x {none, same six} x R x sibling {none, Get("/x") before and
+//             Use("/x", mw) after, Use(mw) before and Get("/") after}, through Group and through Route
+// Bound, FVC_TIER=thorough (about 7 min): A with sub lists of <= 3 routes and all styles with two siblings; C with sub
+//   of <= 2 routes and any <= 1 sibling of R before and after the mount (two siblings only with <= 1 route in sub);
+//   D with s of <= 1 route of R; everything also with Config{StrictRouting: true, CaseSensitive: true}.
 //
 // Output: `FVC-CASES <evaluated (tree, request, mode) cases> <distinct non-empty observations>`;
 // `FVC-FAIL ...` per disagreement (at most 40 are printed in full, all are counted);
 // disagreements covered by a recorded known finding print `KNOWN-FINDING: property=C04 ...` once per finding:
-//   param-prefix   the mount prefix contains a parameter (":p"): the spliced route keeps the sub-application's
+//   param-prefix   a mount prefix contains a parameter (":p"): the spliced route keeps the sub-application's
 //                  Route.Params (addPrefixToRoute does not recompute them), so the parameter of the prefix is not
 //                  delivered, parameters of the route are shifted, and parameter-free routes below it never match.
-//                  Predicate: some mount prefix on the path from the root to a route contains ':' (trees without
-//                  such a prefix must agree).
+//                  Predicate: some mount prefix of the tree contains ':'.
+//   key-collision  two different sub-applications get the same key in the mount list of an ancestor (mount "/"
+//                  inside mount "/"; two mounts under the same prefix) and one of them has mounts of its own: the
+//                  loser is dropped from the list, its own mounts are never spliced, and start-up dereferences the
+//                  nil group of a cloned mount marker (for "/" in "/" depending on map iteration order).
+//                  Predicate: below one application two mounted applications have the same joined prefix and one of
+//                  the two has a mount itself.
 
 import (
 	"fmt"
 	"os"
 	"sort"
+	"strconv"
 	"strings"
 	"testing"
 
 	"github.com/valyala/fasthttp"
 )
 
+type fvcC04Item struct {
+	kind   int // 0..4 a route of R; -1 a mount
+	prefix string
+	style  int // 0 app.Use(p, sub); 1 Group("/").Use(p, sub); 2 Group(p).Use(sub); 3 Group("/a").Use(p, sub)
+	sub    *fvcC04Tree
+}
+
 type fvcC04Tree struct {
-	routes   []int // kinds, registration order
-	mountPos int   // -1: no mount; else the mount is registered before routes[mountPos] (== len(routes): last)
-	prefix   string
-	style    int // 0 app.Use(p, sub); 1 Group("/").Use(p, sub); 2 Group(p).Use(sub); 3 Group("/a").Use(p, sub)
-	sub      *fvcC04Tree
+	items []fvcC04Item
+	app   *App // scratch of the top-down build
 }
 
 var (
@@ -90,90 +108,173 @@ func fvcC04Register(r Router, kind int, label string) {
 
 func (t *fvcC04Tree) String() string {
 	var parts []string
-	for i := 0; i <= len(t.routes); i++ {
-		if i == t.mountPos {
-			how := [...]string{"Use(%q, %s)", `Group("/").Use(%q, %s)`, "Group(%q).Use(%s)", `Group("/a").Use(%q, %s)`}[t.style]
-			parts = append(parts, fmt.Sprintf(how, t.prefix, "App{"+t.sub.String()+"}"))
+	for _, it := range t.items {
+		if it.kind >= 0 {
+			parts = append(parts, fvcC04RouteName(it.kind))
+			continue
 		}
-		if i < len(t.routes) {
-			parts = append(parts, fvcC04RouteName(t.routes[i]))
-		}
+		how := [...]string{"Use(%q, %s)", `Group("/").Use(%q, %s)`, "Group(%q).Use(%s)", `Group("/a").Use(%q, %s)`}[it.style]
+		parts = append(parts, fmt.Sprintf(how, it.prefix, "App{"+it.sub.String()+"}"))
 	}
 	return strings.Join(parts, "; ")
 }
 
-func (t *fvcC04Tree) paramPrefix() bool {
-	return t.mountPos >= 0 && (strings.Contains(t.prefix, ":") || t.sub.paramPrefix())
+func (t *fvcC04Tree) hasMount() bool {
+	for _, it := range t.items {
+		if it.kind < 0 {
+			return true
+		}
+	}
+	return false
 }
 
-// build(T): real sub-applications. topDown: all mounts first (outermost first), then the routes are registered
-// on the already mounted applications; the mount keeps its position because it is registered before the
-// routes that follow it only in the bottom-up order, so topDown is used only for trees whose mounts come first.
-func fvcC04Build(t *fvcC04Tree, cfg Config, label string, topDown bool) *App {
-	app := New(cfg)
-	if topDown {
-		fvcC04MountAll(app, t, cfg)
-		fvcC04RoutesAll(app, t, label)
-		return app
-	}
-	for i := 0; i <= len(t.routes); i++ {
-		if i == t.mountPos {
-			fvcC04Mount(app, t, fvcC04Build(t.sub, cfg, label+"m.", false))
+func (t *fvcC04Tree) paramPrefix() bool {
+	for _, it := range t.items {
+		if it.kind < 0 && (strings.Contains(it.prefix, ":") || it.sub.paramPrefix()) {
+			return true
 		}
-		if i < len(t.routes) {
-			fvcC04Register(app, t.routes[i], fmt.Sprintf("%s%d", label, i))
+	}
+	return false
+}
+
+// mounts come before all routes, in every application of the tree
+func (t *fvcC04Tree) mountsFirst() bool {
+	seenRoute := false
+	for _, it := range t.items {
+		if it.kind >= 0 {
+			seenRoute = true
+		} else if seenRoute || !it.sub.mountsFirst() {
+			return false
+		}
+	}
+	return true
+}
+
+func fvcC04Norm(p string) string {
+	for strings.HasSuffix(p, "/") {
+		p = p[:len(p)-1]
+	}
+	if p == "" {
+		return "/"
+	}
+	return p
+}
+
+// joined prefixes of all applications mounted below t (relative to t), with "has mounts itself"
+func (t *fvcC04Tree) keys(out map[string][]bool, base string) {
+	for _, it := range t.items {
+		if it.kind >= 0 {
+			continue
+		}
+		var rel string
+		switch it.style {
+		case 0:
+			rel = it.prefix
+		case 1:
+			rel = fvcC04RefJoin("/", it.prefix)
+		case 2:
+			rel = it.prefix
+		case 3:
+			rel = fvcC04RefJoin("/a", it.prefix)
+		}
+		key := fvcC04Norm(rel)
+		if base != "" {
+			key = fvcC04RefJoin(base, key)
+		}
+		out[key] = append(out[key], it.sub.hasMount())
+		it.sub.keys(out, key)
+	}
+}
+
+func (t *fvcC04Tree) keyCollision() bool {
+	ks := map[string][]bool{}
+	t.keys(ks, "")
+	for _, l := range ks {
+		if len(l) > 1 {
+			for _, hm := range l {
+				if hm {
+					return true
+				}
+			}
+		}
+	}
+	for _, it := range t.items {
+		if it.kind < 0 && it.sub.keyCollision() {
+			return true
+		}
+	}
+	return false
+}
+
+func fvcC04Mount(app *App, it fvcC04Item, sub *App) {
+	switch it.style {
+	case 0:
+		app.Use(it.prefix, sub)
+	case 1:
+		app.Group("/").Use(it.prefix, sub)
+	case 2:
+		app.Group(it.prefix).Use(sub)
+	case 3:
+		app.Group("/a").Use(it.prefix, sub)
+	}
+}
+
+// build(T), bottom-up: every sub-application is complete when it is mounted.
+func fvcC04Build(t *fvcC04Tree, cfg Config, label string) *App {
+	app := New(cfg)
+	for i, it := range t.items {
+		if it.kind < 0 {
+			fvcC04Mount(app, it, fvcC04Build(it.sub, cfg, fmt.Sprintf("%s%d.", label, i)))
+		} else {
+			fvcC04Register(app, it.kind, fmt.Sprintf("%s%d", label, i))
 		}
 	}
 	return app
 }
 
-var fvcC04Subs = map[*fvcC04Tree]*App{}
-
-func fvcC04MountAll(app *App, t *fvcC04Tree, cfg Config) {
-	if t.mountPos < 0 {
-		return
-	}
-	sub := New(cfg)
-	fvcC04Subs[t] = sub
-	fvcC04Mount(app, t, sub)
-	fvcC04MountAll(sub, t.sub, cfg)
+// build(T), top-down (only for trees with mountsFirst): all mounts, outermost first, then all routes.
+func fvcC04BuildTopDown(t *fvcC04Tree, cfg Config) *App {
+	t.app = New(cfg)
+	fvcC04MountAll(t, cfg)
+	fvcC04RoutesAll(t, "")
+	return t.app
 }
 
-func fvcC04RoutesAll(app *App, t *fvcC04Tree, label string) {
-	for i, k := range t.routes {
-		fvcC04Register(app, k, fmt.Sprintf("%s%d", label, i))
-	}
-	if t.mountPos >= 0 {
-		fvcC04RoutesAll(fvcC04Subs[t], t.sub, label+"m.")
+func fvcC04MountAll(t *fvcC04Tree, cfg Config) {
+	for _, it := range t.items {
+		if it.kind < 0 {
+			it.sub.app = New(cfg)
+			fvcC04Mount(t.app, it, it.sub.app)
+			fvcC04MountAll(it.sub, cfg)
+		}
 	}
 }
 
-func fvcC04Mount(app *App, t *fvcC04Tree, sub *App) {
-	switch t.style {
-	case 0:
-		app.Use(t.prefix, sub)
-	case 1:
-		app.Group("/").Use(t.prefix, sub)
-	case 2:
-		app.Group(t.prefix).Use(sub)
-	case 3:
-		app.Group("/a").Use(t.prefix, sub)
+func fvcC04RoutesAll(t *fvcC04Tree, label string) {
+	for i, it := range t.items {
+		if it.kind < 0 {
+			fvcC04RoutesAll(it.sub, fmt.Sprintf("%s%d.", label, i))
+		} else {
+			fvcC04Register(t.app, it.kind, fmt.Sprintf("%s%d", label, i))
+		}
 	}
 }
 
 // twin(T): one application, the routes of the sub-applications registered through Group(prefix) at the position
 // of the mount.
 func fvcC04Twin(r Router, t *fvcC04Tree, label string) {
-	for i := 0; i <= len(t.routes); i++ {
-		if i == t.mountPos {
+	for i, it := range t.items {
+		if it.kind < 0 {
 			g := r
-			if t.style == 3 {
+			switch it.style {
+			case 1:
+				g = g.Group("/")
+			case 3:
 				g = g.Group("/a")
 			}
-			fvcC04Twin(g.Group(t.prefix), t.sub, label+"m.")
-		}
-		if i < len(t.routes) {
-			fvcC04Register(r, t.routes[i], fmt.Sprintf("%s%d", label, i))
+			fvcC04Twin(g.Group(it.prefix), it.sub, fmt.Sprintf("%s%d.", label, i))
+		} else {
+			fvcC04Register(r, it.kind, fmt.Sprintf("%s%d", label, i))
 		}
 	}
 }
@@ -206,50 +307,62 @@ func fvcC04InitRequests() {
 	}
 }
 
+var fvcC04Fctx fasthttp.RequestCtx
+
 func fvcC04Observe(h fasthttp.RequestHandler, method, path string, pass bool) string {
-	var fctx fasthttp.RequestCtx
+	fctx := &fvcC04Fctx
+	fctx.Request.Reset()
+	fctx.Response.Reset()
 	fctx.Request.Header.SetMethod(method)
 	fctx.Request.SetRequestURI(path)
 	fvcC04Trace = fvcC04Trace[:0]
 	fvcC04Pass = pass
-	h(&fctx)
-	return fmt.Sprintf("%d %s", fctx.Response.StatusCode(), strings.Join(fvcC04Trace, " "))
+	h(fctx)
+	return strconv.Itoa(fctx.Response.StatusCode()) + " " + strings.Join(fvcC04Trace, " ")
 }
 
 type fvcC04Stats struct {
 	cases    int
+	trees    int
 	distinct map[string]struct{}
 	fails    int
 	known    map[string]int
 	knownEx  map[string]string
 }
 
-func (s *fvcC04Stats) compare(t *testing.T, desc func() string, known string, a, b *App) {
+func (s *fvcC04Stats) report(t *testing.T, known, msg string) {
+	if known != "" {
+		if s.known[known] == 0 {
+			s.knownEx[known] = msg
+		}
+		s.known[known]++
+		return
+	}
+	s.fails++
+	if s.fails <= 40 {
+		fmt.Println("FVC-FAIL " + msg)
+	}
+	t.Fail()
+}
+
+func (s *fvcC04Stats) compare(t *testing.T, desc func() string, known string, build func() *App, b *App) {
 	var ha, hb fasthttp.RequestHandler
 	func() {
 		defer func() {
 			if r := recover(); r != nil {
-				msg := fmt.Sprintf("%s | start-up panics: %v", desc(), r)
-				if known != "" {
-					if s.known[known] == 0 {
-						s.knownEx[known] = msg
-					}
-					s.known[known]++
-					return
-				}
-				s.fails++
-				if s.fails <= 40 {
-					fmt.Println("FVC-FAIL " + msg)
-				}
-				t.Fail()
+				s.cases++
+				s.report(t, known, fmt.Sprintf("%s | start-up panics: %v", desc(), r))
 			}
 		}()
-		ha, hb = a.Handler(), b.Handler()
+		ha, hb = build().Handler(), b.Handler()
 	}()
 	if ha == nil || hb == nil {
 		return
 	}
 	for _, rq := range fvcC04Requests {
+		if known != "" && strings.Count(rq[1], "/") > 2 && len(rq[1]) > 4 {
+			continue // trees covered by a known finding: only paths of <= 2 segments
+		}
 		for _, pass := range []bool{false, true} {
 			oa := fvcC04Observe(ha, rq[0], rq[1], pass)
 			ob := fvcC04Observe(hb, rq[0], rq[1], pass)
@@ -257,34 +370,21 @@ func (s *fvcC04Stats) compare(t *testing.T, desc func() string, known string, a,
 			if len(ob) > 4 {
 				s.distinct[ob] = struct{}{}
 			}
-			if oa == ob {
-				continue
+			if oa != ob {
+				s.report(t, known, fmt.Sprintf("%s | %s %s next-in-endpoints=%v | observed %q expected (twin) %q", desc(), rq[0], rq[1], pass, oa, ob))
 			}
-			msg := fmt.Sprintf("%s | %s %s next-in-endpoints=%v | observed %q expected (twin) %q", desc(), rq[0], rq[1], pass, oa, ob)
-			if known != "" {
-				if s.known[known] == 0 {
-					s.knownEx[known] = msg
-				}
-				s.known[known]++
-				continue
-			}
-			s.fails++
-			if s.fails <= 40 {
-				fmt.Println("FVC-FAIL " + msg)
-			}
-			t.Fail()
 		}
 	}
 }
 
-func fvcC04Lists(max int) [][]int {
-	out := [][]int{{}}
-	level := [][]int{{}}
+func fvcC04Lists(max int) [][]fvcC04Item {
+	out := [][]fvcC04Item{{}}
+	level := [][]fvcC04Item{{}}
 	for d := 0; d < max; d++ {
-		var next [][]int
+		var next [][]fvcC04Item
 		for _, l := range level {
 			for k := 0; k < 5; k++ {
-				next = append(next, append(append([]int{}, l...), k))
+				next = append(next, append(append([]fvcC04Item{}, l...), fvcC04Item{kind: k}))
 			}
 		}
 		out = append(out, next...)
@@ -293,19 +393,34 @@ func fvcC04Lists(max int) [][]int {
 	return out
 }
 
+func fvcC04Cat(parts ...[]fvcC04Item) *fvcC04Tree {
+	t := &fvcC04Tree{}
+	for _, p := range parts {
+		t.items = append(t.items, p...)
+	}
+	return t
+}
+
+func fvcC04M(prefix string, style int, sub *fvcC04Tree) []fvcC04Item {
+	return []fvcC04Item{{kind: -1, prefix: prefix, style: style, sub: sub}}
+}
+
 func (s *fvcC04Stats) checkTree(t *testing.T, tree *fvcC04Tree, cfg Config, cfgName string) {
 	known := ""
-	if tree.paramPrefix() {
+	switch {
+	case tree.paramPrefix():
 		known = "param-prefix"
+	case tree.keyCollision():
+		known = "key-collision"
 	}
+	s.trees++
 	twin := New(cfg)
 	fvcC04Twin(twin, tree, "")
-	s.compare(t, func() string { return cfgName + "bottom-up: " + tree.String() }, known, fvcC04Build(tree, cfg, "", false), twin)
-	// top-down registration keeps the positions only if every mount precedes the routes of its application
-	if tree.mountPos == 0 && tree.sub.mountPos <= 0 {
+	s.compare(t, func() string { return cfgName + "bottom-up: " + tree.String() }, known, func() *App { return fvcC04Build(tree, cfg, "") }, twin)
+	if tree.mountsFirst() {
 		twin = New(cfg)
 		fvcC04Twin(twin, tree, "")
-		s.compare(t, func() string { return cfgName + "top-down: " + tree.String() }, known, fvcC04Build(tree, cfg, "", true), twin)
+		s.compare(t, func() string { return cfgName + "top-down: " + tree.String() }, known, func() *App { return fvcC04BuildTopDown(tree, cfg) }, twin)
 	}
 }
 
@@ -320,50 +435,78 @@ func TestFVCBoundedC04MountEquiv(t *testing.T) {
 		configs = append(configs, Config{StrictRouting: true, CaseSensitive: true})
 		cfgNames = append(cfgNames, "StrictRouting+CaseSensitive ")
 	}
-	opt := [][]int{{}, {0}, {1}, {2}, {3}, {4}} // at most one sibling route
-	d1 := 2
-	d2sub := 1
+	opt := fvcC04Lists(1) // at most one route
+	d1, d2sub := 2, 1
 	if thorough {
-		d1 = 3
-		d2sub = 2
+		d1, d2sub = 3, 2
 	}
 	for ci, cfg := range configs {
-		// ---- depth 1 ----
+		// ---- A: depth 1 ----
 		for _, sub := range fvcC04Lists(d1) {
 			for _, p := range prefixes {
 				for _, pre := range opt {
 					for _, post := range opt {
 						for style := 0; style < 4; style++ {
-							if style != 0 && (len(pre)+len(post) == 2) && !thorough {
-								continue // quick: group styles with at most one sibling
+							if style != 0 && len(pre)+len(post) == 2 && !thorough {
+								continue
 							}
-							tree := &fvcC04Tree{routes: append(append([]int{}, pre...), post...), mountPos: len(pre), prefix: p, style: style,
-								sub: &fvcC04Tree{routes: sub, mountPos: -1}}
-							s.checkTree(t, tree, cfg, cfgNames[ci])
+							s.checkTree(t, fvcC04Cat(pre, fvcC04M(p, style, fvcC04Cat(sub)), post), cfg, cfgNames[ci])
 						}
 					}
 				}
 			}
 		}
-		// ---- depth 2 ----
-		pres, posts := [][]int{{}, {4}}, [][]int{{}, {1}}
+		// ---- B: two mounts in one application ----
+		for _, s1 := range opt {
+			for _, s2 := range opt {
+				for _, p := range prefixes {
+					for _, q := range prefixes {
+						s.checkTree(t, fvcC04Cat(fvcC04M(p, 0, fvcC04Cat(s1)), fvcC04M(q, 0, fvcC04Cat(s2))), cfg, cfgNames[ci])
+					}
+				}
+			}
+		}
+		// ---- C: depth 2 ----
+		type sib struct{ pre, post []fvcC04Item }
+		sibs := []sib{{}, {pre: opt[5], post: opt[2]}}
 		if thorough {
-			pres, posts = opt, opt
+			sibs = nil
+			for _, pre := range opt {
+				for _, post := range opt {
+					sibs = append(sibs, sib{pre, post})
+				}
+			}
 		}
 		for _, leaf := range fvcC04Lists(2) {
 			for _, subRoutes := range fvcC04Lists(d2sub) {
 				for mp := 0; mp <= len(subRoutes); mp++ {
 					for _, p1 := range prefixes {
 						for _, p2 := range prefixes {
-							for _, pre := range pres {
-								for _, post := range posts {
-									if thorough && len(pre)+len(post) == 2 && len(subRoutes) == 2 {
-										continue // thorough: two root siblings only with <= 1 route in the middle app
-									}
-									tree := &fvcC04Tree{routes: append(append([]int{}, pre...), post...), mountPos: len(pre), prefix: p1,
-										sub: &fvcC04Tree{routes: subRoutes, mountPos: mp, prefix: p2, sub: &fvcC04Tree{routes: leaf, mountPos: -1}}}
-									s.checkTree(t, tree, cfg, cfgNames[ci])
+							for _, sb := range sibs {
+								if len(sb.pre)+len(sb.post) == 2 && len(subRoutes) == 2 {
+									continue
 								}
+								sub := fvcC04Cat(subRoutes[:mp], fvcC04M(p2, 0, fvcC04Cat(leaf)), subRoutes[mp:])
+								s.checkTree(t, fvcC04Cat(sb.pre, fvcC04M(p1, 0, sub), sb.post), cfg, cfgNames[ci])
+							}
+						}
+					}
+				}
+			}
+		}
+		// ---- D: depth 2 beside a sibling mount ----
+		others := [][]fvcC04Item{opt[2], opt[5]}
+		if thorough {
+			others = opt
+		}
+		for _, leaf := range opt {
+			for _, subRoute := range opt {
+				for _, other := range others {
+					for _, p1 := range prefixes {
+						for _, p2 := range prefixes {
+							for _, q := range prefixes {
+								sub := fvcC04Cat(fvcC04M(p2, 0, fvcC04Cat(leaf)), subRoute)
+								s.checkTree(t, fvcC04Cat(fvcC04M(p1, 0, sub), fvcC04M(q, 0, fvcC04Cat(other))), cfg, cfgNames[ci])
 							}
 						}
 					}
@@ -374,6 +517,7 @@ func TestFVCBoundedC04MountEquiv(t *testing.T) {
 		s.checkPrefixes(t, cfg, cfgNames[ci])
 	}
 	fmt.Printf("FVC-CASES %d %d\n", s.cases, len(s.distinct))
+	fmt.Printf("FVC-NOTE %d mount trees (each compared with its Group twin, bottom-up and where possible top-down)\n", s.trees)
 	var ks []string
 	for k := range s.known {
 		ks = append(ks, k)
@@ -431,8 +575,8 @@ func (s *fvcC04Stats) checkPrefixes(t *testing.T, cfg Config, cfgName string) {
 							if p2 != "-" {
 								rg = rg.Route(p2)
 							}
+							// Route(p).Get registers p itself: the route's own path is one more Route level
 							if kind < 3 {
-								// Route(p).Get registers p itself: the route's own path is one more Route level
 								rg.Route(routePath[kind]).Get(fvcC04Handler("r", true))
 							} else {
 								rg.Route(routePath[kind]).All(fvcC04Handler("r", false))
@@ -452,7 +596,7 @@ func (s *fvcC04Stats) checkPrefixes(t *testing.T, cfg Config, cfgName string) {
 						desc := func() string {
 							return fmt.Sprintf("%s%s(%q)/(%q) %s vs spelled-out %q sibling=%d", cfgName, [...]string{"Group", "Route"}[api], p1, p2, fvcC04RouteName(kind), full, sib)
 						}
-						s.compare(t, desc, "", a, b)
+						s.compare(t, desc, "", func() *App { return a }, b)
 					}
 				}
 			}
